@@ -3,6 +3,7 @@ status vector; W: histories with hostile CI on real repositories."""
 import itertools
 
 from vf.world import gen, monitors, runner
+from vf.world.world import AUTHOR
 
 ID = 'C06'
 LEVEL = 'exploration'
@@ -159,6 +160,13 @@ def run_shard(spec, acc):
         gen.OPENERS['source_pushed_during_job'])
         for layout in ('d1', 'd2', 's1d2', 'd3')
         for qm in ('queue', 'noqueue', 'skipqueue')]
+    # a waiver given on one pull request must not reach another one of the
+    # same author (listed in pr_author_options for something else)
+    directed += [({'layout': layout, 'queue_mode': qm, 'settings': {
+        'pr_author_options': {AUTHOR: [other]}}},
+        gen.OPENERS['bypass_on_other_pr'])
+        for layout in ('d1', 'd2') for qm in ('queue', 'noqueue')
+        for other in ('bypass_jira_check', 'bypass_peer_approval')]
     runner.run_histories(spec, acc, configs(), prof, MONITORS, n_hist, jobs,
                          openers=openers, soft_cap_s=cap, directed=directed)
 
